@@ -1916,6 +1916,12 @@ pub fn s_count(cx: &mut Ctx) {
                 // arbitrary precision far beyond 64 bits
                 cx_op!(cx, format!("satcount {} {}", h, 200 + f % 5000));
             }
+            // numbers of variables at and around every machine-word boundary (carries out of 32, 64,
+            // 128, 256 … bits), rotating through the list
+            const BOUND: [u64; 36] = [31, 32, 33, 34, 62, 63, 64, 65, 66, 67, 126, 127, 128, 129, 130, 131, 132, 133, 134, 135, 136, 140, 191, 192, 193, 194, 255, 256, 257, 258, 511, 512, 513, 1023, 1024, 1025];
+            for k in 0..3 {
+                cx_op!(cx, format!("satcount {} {}", h, BOUND[(f as usize * 3 + k) % BOUND.len()]));
+            }
             let nh = cx_op!(cx, format!("not {}", h));
             cx_op!(cx, format!("satcount {} {}", nh, n));
             cx_op!(cx, format!("onesat {}", h));
@@ -1942,6 +1948,8 @@ pub fn s_count(cx: &mut Ctx) {
         for _ in 0..25 {
             let a = *cx.rng.pick(&hs);
             cx_op!(cx, format!("satcount {} {}", a, n as u64 + cx.rng.below(60)));
+            cx_op!(cx, format!("satcount {} {}", a, 120 + cx.rng.below(24)));
+            cx_op!(cx, format!("satcount {} {}", a, [60u64, 250][cx.rng.below(2) as usize] + cx.rng.below(12)));
             cx_op!(cx, format!("onesat {}", a));
             if !big {
                 cx_op!(cx, format!("paths {}", a));
@@ -2169,7 +2177,9 @@ pub fn s_kcache(cx: &mut Ctx) {
         let kinds = ["ite", "con", "res"];
         for s in 0..120u64 {
             let kind = kinds[cx.rng.below(3) as usize];
-            let (f, g, h) = (2 + cx.rng.below(uni), 2 + cx.rng.below(uni), 2 + cx.rng.below(uni));
+            // operands from a small universe that includes the sentinel words 0 and 1
+            let lo = if cx.rng.chance(1, 3) { 0 } else { 2 };
+            let (f, g, h) = (lo + cx.rng.below(uni), lo + cx.rng.below(uni), lo + cx.rng.below(uni));
             match cx.rng.below(12) {
                 0..=3 => {
                     cx_op!(cx, format!("ck.insert {} {} {} {} {}", kind, f, g, h, 2 + cx.rng.below(1000)));
@@ -2192,10 +2202,17 @@ pub fn s_kcache(cx: &mut Ctx) {
                     }
                 }
                 10 => {
-                    // Constrain and Restrict keys over the same pair hash alike
+                    // Constrain and Restrict keys over the same pair hash alike; so do the ITE keys with
+                    // the same two operands and a sentinel word as the third
                     cx_op!(cx, format!("ck.insert con {} {} 0 {}", f, g, 2 + s));
                     cx_op!(cx, format!("ck.get res {} {} 0", f, g));
+                    cx_op!(cx, format!("ck.get ite {} {} 0", f, g));
+                    cx_op!(cx, format!("ck.get ite {} {} 1", f, g));
                     cx_op!(cx, format!("ck.get con {} {} 0", f, g));
+                    cx_op!(cx, format!("ck.insert res {} {} 0 {}", g, f, 3 + s));
+                    cx_op!(cx, format!("ck.get ite {} {} 1", g, f));
+                    cx_op!(cx, format!("ck.get ite {} {} 0", g, f));
+                    cx_op!(cx, format!("ck.get con {} {} 0", g, f));
                 }
                 _ => {
                     cx.op("ck.clear".into());
